@@ -818,6 +818,34 @@ func c09ConcatBP(c *core.Ctx, group func(string, func(*totalCtx) string), argSha
 				}
 			}
 		}
+		// histories of BackPropagate calls that the tracking rules do not define (the same root twice, two
+		// roots over a shared intermediate, a root after a reset of its leaf, a gradient tensor as root):
+		// whatever they return, they return - no panic, no runaway
+		for _, s := range [][]int{{}, {2}, {2, 2}} {
+			x := rt.Make(enum.Generic(s, 11, 0.5, 2, true), true)
+			h := x.Scale(2)
+			r1 := h.Exp()
+			r2, _ := h.Mul(h)
+			for i, root := range []tensor.Tensor{r1, r1, r2, r2, h, x, r1} {
+				root := root
+				if m := tc.call(fmt.Sprintf("BackPropagate #%d in a history with repeated and overlapping roots (shape %v)", i, s), vUnspecified, nil, nil, func() (tensor.Tensor, error) { return nil, tensor.BackPropagate(root) }); m != "" {
+					return m
+				}
+			}
+			if g := x.Gradient(); g != nil {
+				if m := tc.call("BackPropagate(a gradient tensor)", vUnspecified, nil, nil, func() (tensor.Tensor, error) { return nil, tensor.BackPropagate(g) }); m != "" {
+					return m
+				}
+			}
+			x.ResetGradContext(true)
+			if m := tc.call("BackPropagate(old root after its leaf was reset)", vUnspecified, nil, nil, func() (tensor.Tensor, error) { return nil, tensor.BackPropagate(r2) }); m != "" {
+				return m
+			}
+			y := x.Tanh()
+			if m := tc.call("BackPropagate(new root after reset)", vValid, nil, nil, func() (tensor.Tensor, error) { return nil, tensor.BackPropagate(y) }); m != "" {
+				return m
+			}
+		}
 		return ""
 	})
 }
